@@ -202,7 +202,11 @@ def c01_3(ctx: Ctx) -> RuleResult:
                     "" if ok else f"`{norm_stmt(early[0]) if early else 'else'}` leaves the loop: filters after an unused one are never applied to the rows mapped to them",
                     construct=f"{f.name}: rows of all filters visited")
             it = X.at(f, lp.iter)
-            ok = it[0] == "call" and it[1] == ("builtin", "enumerate") and it[2] and it[2][0] == recv[1] if recv[0] == "iter" else False
+            def enumerates_all(t_):
+                return t_[0] == "call" and t_[1] == ("builtin", "enumerate") and t_[2] and t_[2][0] == recv[1]
+
+            # directly, or through a comprehension over the enumeration (its filter is checked as a skip condition below)
+            ok = (enumerates_all(it) or (it[0] == "comp" and len(it[3]) == 1 and enumerates_all(it[3][0][1]))) if recv[0] == "iter" else False
             res.add(f, lp, "the loop enumerates the full list of filter objects (index k pairs with filter k)", ok,
                     "" if ok else f"loop iterates `{show(it, 60)}`", construct=f"{f.name}: rows enumerate all filters")
         # stores of the result
@@ -210,17 +214,15 @@ def c01_3(ctx: Ctx) -> RuleResult:
         p_ = parent(c)
         if isinstance(p_, ast.Assign) and isinstance(p_.targets[0], ast.Name):
             var = p_.targets[0].id
-        stores = [n for n in nodes_in(f, ast.Assign) if isinstance(n.targets[0], ast.Subscript) and isinstance(n.value, ast.Name) and n.value.id == var]
+        stores = _filter_stores(ctx, f, var)
         if len(stores) < 2:
             res.add(f, c, "the filter's weights are stored into the objective and the constraint weight matrices", False,
                     f"{len(stores)} store(s) of the filter result found", construct=f"{f.name}: filter stores")
             continue
         if lp is not None:
             _filter_loop_clauses(ctx, res, f, c, lp, stores)
-        for st in stores:
-            tgt = ast.unparse(st.targets[0].value)
-            it = X.at(f, st.targets[0].slice)
-            row = it[1][0] if it[0] == "tuple" else it
+        for rec in stores:
+            st, tgt, row = rec.node, rec.tgt, rec.row
             cmps = [s for s in subterms(row) if s[0] == "cmp" and s[1] == "=="]
             ok_pair = any((s[3][0] == "enumidx" and recv[0] == "iter" and s[3][1] == recv[1] and s[3][2] == recv[2]) for s in cmps)
             want = "nonlinear_constraints" if "constraint" in tgt else "objectives"
@@ -234,6 +236,57 @@ def c01_3(ctx: Ctx) -> RuleResult:
                     construct=f"{f.name}: rows of {tgt}")
     res.floor = 8
     return res
+
+
+class _FStore:
+    """One place where the weights returned by a filter are written into rows of a weight matrix:
+    `M[rows, :] = weights` in the loop itself, or the same store inside a private helper the weights are handed to
+    (then `rows` and `M` are the caller's arguments)."""
+
+    def __init__(self, node, tgt, row, base, helper=None, helper_param=None):
+        self.node, self.tgt, self.row, self.base, self.helper, self.helper_param = node, tgt, row, base, helper, helper_param
+
+
+def _filter_stores(ctx: Ctx, f: Func, var: str | None) -> list:
+    from ..callgraph import _is_bound_call, bind_args
+    from ..terms import _subst
+
+    X = ctx.X
+    out = []
+    if var is None:
+        return out
+    for n in nodes_in(f, ast.Assign):
+        if isinstance(n.targets[0], ast.Subscript) and isinstance(n.value, ast.Name) and n.value.id == var:
+            it = X.at(f, n.targets[0].slice)
+            base = n.targets[0].value
+            out.append(_FStore(n, ast.unparse(base), it[1][0] if it[0] == "tuple" else it, base.id if isinstance(base, ast.Name) else None))
+    for cl in calls_in(f):
+        argnodes = list(cl.args) + [k.value for k in cl.keywords]
+        if not any(isinstance(a, ast.Name) and a.id == var for a in argnodes):
+            continue
+        for g in ctx.cg.callees_of_call(f, cl):
+            if not g.name.startswith("_") or g.module is not f.module or isinstance(g.node, ast.Lambda):
+                continue
+            ct = X.at(f, cl)
+            bound = bind_args(g, ct, bound=_is_bound_call(ct, g))
+            # AST view of the binding (parameter name -> caller's argument node)
+            pnames = [a.arg for a in g.node.args.args]
+            if g.cls is not None and pnames and not g.is_static:
+                pnames = pnames[1:]
+            anodes = dict(zip(pnames, cl.args))
+            anodes.update({k.arg: k.value for k in cl.keywords if k.arg})
+            wparams = [p_ for p_, a_ in anodes.items() if isinstance(a_, ast.Name) and a_.id == var]
+            mapping = {("param", g.qualname, p_): t_ for p_, t_ in bound.items() if t_ is not None}
+            for n in nodes_in(g, ast.Assign):
+                tg = n.targets[0]
+                if isinstance(tg, ast.Subscript) and isinstance(n.value, ast.Name) and n.value.id in wparams and isinstance(tg.value, ast.Name) and tg.value.id in anodes:
+                    it = _subst(X.at(g, tg.slice), mapping)
+                    marg = anodes[tg.value.id]
+                    st_ = cl
+                    while parent(st_) is not None and not isinstance(st_, ast.stmt):
+                        st_ = parent(st_)
+                    out.append(_FStore(st_, ast.unparse(marg), it[1][0] if it[0] == "tuple" else it, marg.id if isinstance(marg, ast.Name) else None, g, tg.value.id))
+    return out
 
 
 def _filter_loop_clauses(ctx: Ctx, res: RuleResult, f, c, lp, stores) -> None:
@@ -253,6 +306,9 @@ def _filter_loop_clauses(ctx: Ctx, res: RuleResult, f, c, lp, stores) -> None:
     for t in pc:
         g = bool_nnf(t)
         conj.extend(g[1] if g[0] == "and" else [g])
+    # `if not <the sequence the loop iterates>: return` before the loop: implied by the body running at all
+    loop_iter = X.at(f, lp.iter)
+    conj = [k for k in conj if not (k[0] == "lit" and k[2] and norm(k[1]) == norm(loop_iter))]
 
     def lit_about(lit, m) -> bool:
         if lit[0] != "lit":
@@ -260,17 +316,17 @@ def _filter_loop_clauses(ctx: Ctx, res: RuleResult, f, c, lp, stores) -> None:
         a, pol = lit[1], lit[2]
         if a[0] == "cmp" and a[1] in ("is", "is not") and ("const", None) in (a[2], a[3]):
             other = a[3] if a[2] == ("const", None) else a[2]
-            return norm(other) == m and (pol == (a[1] == "is not"))
+            # the mask itself, or the index map it is computed from (`map == k` has no true entry when map is None)
+            return (norm(other) == m or contains(m, lambda y: y == norm(other))) and (pol == (a[1] == "is not"))
         if a[0] == "call" and a[1] in (("global", "numpy.any"), ("builtin", "any")) and a[2] and norm(a[2][0]) == m:
             return pol
         if a[0] == "call" and a[1][0] == "attr" and a[1][2] == "any" and norm(a[1][1]) == m:
             return pol
         return False
 
-    for st in stores:
-        tgt = ast.unparse(st.targets[0].value)
-        it = X.at(f, st.targets[0].slice)
-        m = norm(it[1][0] if it[0] == "tuple" else it)
+    for rec in stores:
+        tgt = rec.tgt
+        m = norm(rec.row)
         bad = None
         for k in conj:
             disj = k[1] if k[0] == "or" else [k]
@@ -288,7 +344,8 @@ def _filter_loop_clauses(ctx: Ctx, res: RuleResult, f, c, lp, stores) -> None:
                 "" if ok else f"the filter is skipped under a condition that does not depend on the rows of `{tgt}` mapped to it: these rows keep the configured weights",
                 construct=f"{f.name}: rows of {tgt}: skip condition")
     # (b) accumulation
-    def guarded_by_none(n: ast.AST, name: str) -> bool:
+    def guarded_by_none(n: ast.AST, name: str, stop=None) -> bool:
+        stop = lp if stop is None else stop
         def is_none_test(t, want_none: bool) -> bool:
             if isinstance(t, ast.BoolOp) and isinstance(t.op, ast.And) and want_none:
                 return any(is_none_test(v, True) for v in t.values)
@@ -298,7 +355,7 @@ def _filter_loop_clauses(ctx: Ctx, res: RuleResult, f, c, lp, stores) -> None:
                     and isinstance(t.comparators[0], ast.Constant) and t.comparators[0].value is None
                     and isinstance(t.ops[0], ast.Is if want_none else ast.IsNot))
         child, cur = n, parent(n)
-        while cur is not None and cur is not lp:
+        while cur is not None and cur is not stop:
             if isinstance(cur, ast.If):
                 if any(child is s for s in cur.body) and is_none_test(cur.test, True):
                     return True
@@ -313,18 +370,34 @@ def _filter_loop_clauses(ctx: Ctx, res: RuleResult, f, c, lp, stores) -> None:
                 return True
         return False
 
-    for st in stores:
-        base = st.targets[0].value
-        if not isinstance(base, ast.Name):
+    def hands_back(n, rec) -> bool:
+        """`M = helper(M, ...)`: the helper stores into the matrix it is given (created only while None) and returns it"""
+        g = rec.helper
+        if g is None or not isinstance(n.value, ast.Call) or g not in ctx.cg.callees_of_call(f, n.value):
+            return False
+        rets = [r_ for r_ in nodes_in(g, ast.Return)]
+        if not rets or not all(isinstance(r_.value, ast.Name) and r_.value.id == rec.helper_param for r_ in rets):
+            return False
+        for n2 in nodes_in(g, (ast.Assign, ast.AnnAssign)):
+            tg2 = n2.targets if isinstance(n2, ast.Assign) else [n2.target]
+            if n2.value is not None and any(isinstance(t_, ast.Name) and t_.id == rec.helper_param for t_ in tg2):
+                if not guarded_by_none(n2, rec.helper_param, g.node):
+                    return False
+        return True
+
+    seen_b = set()
+    for rec in stores:
+        if rec.base is None:
             continue
         for n in ast.walk(lp):
-            if isinstance(n, (ast.Assign, ast.AnnAssign)) and n.value is not None:
+            if isinstance(n, (ast.Assign, ast.AnnAssign)) and n.value is not None and (id(n), rec.base) not in seen_b:
                 tg = n.targets if isinstance(n, ast.Assign) else [n.target]
-                if any(isinstance(t_, ast.Name) and t_.id == base.id for t_ in tg):
-                    ok = guarded_by_none(n, base.id)
-                    res.add(f, n, f"`{base.id}` is created inside the filter loop only while it is still None (rows written for earlier filters are kept)", ok,
-                            "" if ok else f"`{norm_stmt(n)[:70]}` re-creates `{base.id}` for every filter: the rows written for lower-indexed filters are lost",
-                            construct=f"{f.name}: rows of {base.id}: accumulation")
+                if any(isinstance(t_, ast.Name) and t_.id == rec.base for t_ in tg):
+                    seen_b.add((id(n), rec.base))
+                    ok = guarded_by_none(n, rec.base) or hands_back(n, rec)
+                    res.add(f, n, f"`{rec.base}` is created inside the filter loop only while it is still None (rows written for earlier filters are kept)", ok,
+                            "" if ok else f"`{norm_stmt(n)[:70]}` re-creates `{rec.base}` for every filter: the rows written for lower-indexed filters are lost",
+                            construct=f"{f.name}: rows of {rec.base}: accumulation")
 
 
 # --------------------------------------------------------------------- C01.4
